@@ -518,3 +518,34 @@ func (m *Model) popCall(call *ast.CallExpr) (*types.Var, bool) {
 	v := identVar(info, sel.X)
 	return v, v != nil
 }
+
+// implementers: f is a method of an interface declared in the package; the units of the
+// package's methods of that name whose receiver type implements the interface.
+func (m *Model) implementers(f *types.Func) []*FuncUnit {
+	sig, _ := f.Type().(*types.Signature)
+	if sig == nil || sig.Recv() == nil {
+		return nil
+	}
+	it, ok := sig.Recv().Type().Underlying().(*types.Interface)
+	if !ok {
+		return nil
+	}
+	var out []*FuncUnit
+	for _, cu := range m.Units {
+		if cu.Obj == nil || cu.Lit != nil || cu.Obj.Name() != f.Name() {
+			continue
+		}
+		rs, _ := cu.Obj.Type().(*types.Signature)
+		if rs == nil || rs.Recv() == nil {
+			continue
+		}
+		rt := rs.Recv().Type()
+		if n := namedOf(rt); n != nil && n.TypeParams().Len() > 0 {
+			continue
+		}
+		if types.Implements(rt, it) || types.Implements(types.NewPointer(rt), it) {
+			out = append(out, cu)
+		}
+	}
+	return out
+}
